@@ -119,6 +119,19 @@ def enumerate_cases(tier: str):
                 lines += [f"1;0;0;{ack};{t};{payload}\n" for t in (3, 6)] + [f"3;255;0;{ack};17;{payload}\n", f"4;7;3;{ack};3;{payload}\n"]
                 yield {"pair": [old, new], "metric": bool(ack), "registry": ENUM_REGISTRY,
                        "ops": [op for line in lines for op in (["rx", line],)] + [["send", [2, 0, 1, 0, 0, "9"], None], ["rx", "1;0;2;0;0;\n"], ["rx", "1;0;1;0;0;5\n"]]}
+    yield from _type_sweep()
+
+
+def _type_sweep():
+    """presentation of every child type, then set + req of every value type of the older table, for all pairs."""
+    for old, new in PAIRS:
+        vmax = 39 if old == "1.4" else (45 if old == "1.5" else 56)
+        pmax = 25 if old == "1.4" else (35 if old == "1.5" else 39)
+        for ptype in range(0, pmax + 1):
+            ops = [["rx", f"1;7;0;0;{ptype};sensor\n"]]
+            for vtype in range(0, vmax + 1):
+                ops += [["rx", f"1;7;1;0;{vtype};{vtype}.5\n"], ["rx", f"1;7;2;0;{vtype};\n"]]
+            yield {"pair": [old, new], "metric": True, "registry": ENUM_REGISTRY, "ops": ops}
 
 
 def strategy(tier: str):
